@@ -145,13 +145,24 @@ def run(ctx):
             # padding through the encoding utilities (their domain: single dots strictly between symbols)
             if ".." in base or base.startswith(".") or base.endswith("."):
                 continue
-            syms = sorted(set(t for t in toks) | {"[nop]", "."})
-            stoi = {s: i for i, s in enumerate(syms)}
-            itos = {i: s for s, i in stoi.items()}
-            pad = len(toks) + rng.choice([0, 1, 5, 20])
-            e = call_guard(lambda: sf.selfies_to_encoding(base, stoi, pad_to_len=pad, enc_type="label"))
+            # the vocabulary the way pipelines build it: numbered in any order, '[nop]' often added last with label 0
+            syms = sorted(set(t for t in toks) | {"."})
+            rng.shuffle(syms)
+            if rng.random() < 0.5:
+                stoi = {s: i + 1 for i, s in enumerate(syms)}
+                stoi["[nop]"] = 0
+            else:
+                syms.insert(rng.randrange(len(syms) + 1), "[nop]")
+                stoi = {s: i for i, s in enumerate(syms)}
+            items = [(i, s) for s, i in stoi.items()]
+            if rng.random() < 0.5:
+                rng.shuffle(items)
+            itos = dict(items)
+            pad = len(toks) + rng.choice([0, 1, 5, 20, len(stoi) + 3, 3 * len(stoi)])
+            enc_type = rng.choice(["label", "label", "one_hot"])
+            e = call_guard(lambda: sf.selfies_to_encoding(base, stoi, pad_to_len=pad, enc_type=enc_type))
             if e[0] == "ok":
-                back = call_guard(lambda: sf.encoding_to_selfies(e[1], itos, "label"))
+                back = call_guard(lambda: sf.encoding_to_selfies(e[1], itos, enc_type))
                 ctx.count("padding_roundtrips")
                 if back[0] != "ok" or outcome(sf, back[1]) != r0:
                     ctx.finding("padded-string-decodes-differently", {"selfies": base, "padded": repr(back)[:300], "table": table}, "padding round trip")
